@@ -172,7 +172,11 @@ func VerifK25TupleCondition() {
 		reqCtx = &structpb.Struct{Fields: map[string]*structpb.Value{"x": structpb.NewStringValue("a"), "y": structpb.NewStringValue("a")}}
 	}
 
+	nReq, nTup := len(reqCtx.GetFields()), len(tk.GetCondition().GetContext().GetFields())
 	met, err := EvaluateTupleCondition(context.Background(), tk, ec, reqCtx)
+	// the same request context is used for every tuple of a request: an evaluation must not write into it
+	vt.Assert(len(reqCtx.GetFields()) == nReq, "evaluation modified the caller's request context (stored parameters would leak into the evaluation of other tuples)")
+	vt.Assert(len(tk.GetCondition().GetContext().GetFields()) == nTup, "evaluation modified the tuple's stored context")
 
 	switch shape {
 	case 1, 2:
